@@ -2,7 +2,10 @@
  * wrappers.  Frames: the table object, the recycled free item, the bucket cell / chain back
  * pointer that changes, and the link fields of the order-list neighbours. */
 #include "nvc.h"
-#ifdef NV_HASHSET
+#if defined(NV_POOLMAP)
+struct HItem_L { long value; long key; struct HItem_L** cell; struct HItem_L* nextCell; struct HItem_L* prev; struct HItem_L* next; };
+#define HIT_VALUE_TARGET
+#elif defined(NV_HASHSET)
 struct HItem_L { long key; struct HItem_L** cell; struct HItem_L* nextCell; struct HItem_L* prev; struct HItem_L* next; };
 #define HIT_VALUE_TARGET
 #else
